@@ -45,6 +45,16 @@ type schemaField struct {
 	Redact   bool   `json:"redact"`
 	NoLog    bool   `json:"nolog"`
 	T        *tdesc `json:"t"`
+	Def      *defv  `json:"def"`
+}
+
+// defv: a declared default as a literal (K: bool int double string other).
+type defv struct {
+	K string `json:"k"`
+	I int64  `json:"i"`
+	B bool   `json:"b"`
+	F uint64 `json:"f"`
+	S string `json:"s"`
 }
 
 // tdesc: a Thrift type with typedefs resolved (K: bool i8 i16 i32 i64 double
@@ -77,6 +87,7 @@ const schemaDumpSrc = `package main
 
 import (
 	"encoding/json"
+	"math"
 	"os"
 	"path/filepath"
 	"strings"
@@ -94,6 +105,45 @@ type field struct {
 	Redact   bool   ` + "`json:\"redact\"`" + `
 	NoLog    bool   ` + "`json:\"nolog\"`" + `
 	T        *tdesc ` + "`json:\"t\"`" + `
+	Def      *defv  ` + "`json:\"def\"`" + `
+}
+type defv struct {
+	K string ` + "`json:\"k\"`" + `
+	I int64  ` + "`json:\"i\"`" + `
+	B bool   ` + "`json:\"b\"`" + `
+	F uint64 ` + "`json:\"f\"`" + `
+	S string ` + "`json:\"s\"`" + `
+}
+
+func defOf(c compile.ConstantValue, t compile.TypeSpec) *defv {
+	if c == nil {
+		return nil
+	}
+	rt := compile.RootTypeSpec(t)
+	switch x := c.(type) {
+	case compile.ConstantBool:
+		return &defv{K: "bool", B: bool(x)}
+	case compile.ConstantInt:
+		if _, ok := rt.(*compile.DoubleSpec); ok {
+			return &defv{K: "double", F: math.Float64bits(float64(x))}
+		}
+		if _, ok := rt.(*compile.BoolSpec); ok {
+			return &defv{K: "bool", B: x != 0}
+		}
+		return &defv{K: "int", I: int64(x)}
+	case compile.ConstantDouble:
+		return &defv{K: "double", F: math.Float64bits(float64(x))}
+	case compile.ConstantString:
+		if _, ok := rt.(*compile.StringSpec); ok {
+			return &defv{K: "string", S: string(x)}
+		}
+		return &defv{K: "other"}
+	case compile.EnumItemReference:
+		return &defv{K: "int", I: int64(x.Item.Value)}
+	case compile.ConstReference:
+		return defOf(x.Target.Value, t)
+	}
+	return &defv{K: "other"}
 }
 type tdesc struct {
 	K    string ` + "`json:\"k\"`" + `
@@ -186,9 +236,19 @@ func main() {
 				st.Kind = "union"
 			}
 			for _, fl := range s.Fields {
-				st.Fields = append(st.Fields, field{ID: int(fl.ID), Name: fl.Name, Required: fl.Required, Code: int(fl.Type.TypeCode()), Default: fl.Default != nil, Redact: has(fl.Annotations, "go.redact"), NoLog: has(fl.Annotations, "go.nolog"), T: desc(fl.Type)})
+				st.Fields = append(st.Fields, field{ID: int(fl.ID), Name: fl.Name, Required: fl.Required, Code: int(fl.Type.TypeCode()), Default: fl.Default != nil, Redact: has(fl.Annotations, "go.redact"), NoLog: has(fl.Annotations, "go.nolog"), T: desc(fl.Type), Def: defOf(fl.Default, fl.Type)})
 			}
 			out[base] = append(out[base], st)
+		}
+		// function-arguments structs of the services (Go name <Service>_<Function>_Args)
+		for _, svc := range m.Services {
+			for _, fn := range svc.Functions {
+				st := strct{Name: svc.Name + "_" + fn.Name + "_Args", Kind: "struct"}
+				for _, fl := range fn.ArgsSpec {
+					st.Fields = append(st.Fields, field{ID: int(fl.ID), Name: fl.Name, Required: fl.Required, Code: int(fl.Type.TypeCode()), Default: fl.Default != nil, T: desc(fl.Type), Def: defOf(fl.Default, fl.Type)})
+				}
+				out[base] = append(out[base], st)
+			}
 		}
 		for _, inc := range m.Includes {
 			visit(inc.Module)
@@ -232,9 +292,10 @@ var quickCorpus = map[string]bool{"structs.thrift": true, "unions.thrift": true,
 
 // quickCorpusByProp: which schemas a property's quick check regenerates.
 var quickCorpusByProp = map[string]map[string]bool{
-	"C05": {"structs.thrift": true, "unions.thrift": true, "enums.thrift": true, "exceptions.thrift": true, "wide.thrift": true},
+	"C05": {"structs.thrift": true, "unions.thrift": true, "enums.thrift": true, "exceptions.thrift": true, "wide.thrift": true, "codec.thrift": true},
 	"C15": {"structs.thrift": true, "exceptions.thrift": true, "redact.thrift": true},
 	"C13": {"containers.thrift": true},
+	"C01": {"structs.thrift": true, "enums.thrift": true, "unions.thrift": true, "exceptions.thrift": true, "typedefs.thrift": true, "equals.thrift": true, "codec.thrift": true},
 	"C14": {"structs.thrift": true, "enums.thrift": true, "unions.thrift": true, "exceptions.thrift": true, "typedefs.thrift": true, "equals.thrift": true},
 }
 
@@ -464,6 +525,7 @@ func (ii *InstInfo) addContracts(p *Program, cs *ContractSet, prop string) error
 	if prop == "C14" {
 		return ii.addEqualsContracts(p, cs, prop)
 	}
+
 	var fns []*ssa.Function
 	for f := range p.allFns {
 		pk := fnPkg(f)
@@ -564,6 +626,27 @@ func (ii *InstInfo) addContracts(p *Program, cs *ContractSet, prop string) error
 	}
 	if ii.funcs == 0 {
 		return fmt.Errorf("no decoder found in the regenerated corpus")
+	}
+	if prop == "C01" {
+		// C01 shares the decoder contracts with C05: the clauses that belong to C01
+		// (declared defaults filled in, union arity) are obligations here; decoders
+		// without such clauses are taken as proved by the C05 check (assumed here).
+		for _, ct := range cs.Order {
+			if ct.File != "synthesised" || !hasProp(ct.Props, prop) {
+				continue
+			}
+			keep := false
+			for _, e := range ct.Ensures {
+				if strings.HasPrefix(e.Label, "default_") || e.Label == "arity" {
+					keep = true
+				}
+			}
+			if !keep {
+				ct.Trusted = true
+				ct.Props = nil
+			}
+		}
+		return ii.addCodecContracts(p, cs, prop)
 	}
 	return nil
 }
